@@ -29,25 +29,26 @@ def run_strs(ctx, sequences, ops, sweeps, decodes, seed_offset=0, label="general
     if not ok:
         return False
     if not any(o["name"] == "build:driver" for o in ctx.obligations):
-        if not build_driver(ctx):
+        if not build_driver(ctx, "strs"):
             return False
     exe = bin_path("strs")
     env = dict(os.environ, VERIF_SEED=str(ctx.seed + seed_offset))
     cmdline = f"VERIF_SEED={ctx.seed + seed_offset} {exe} {sequences} {ops} {sweeps} {decodes}"
     p = run_harness([exe, str(sequences), str(ops), str(sweeps), str(decodes)], env, ctx)
-    if p.returncode != 0:
+    died = p.returncode != 0
+    out_lines = p.stdout.splitlines()
+    if died:
+        # the oracle lines printed before the crash are evaluated below; the crash itself is reported after them
         ctx.add_ob(f"run:strs-{label}", "build", False, f"rc={p.returncode}\n{p.stderr[-2000:]}\n{p.stdout[-1500:]}")
-        ctx.oracle_failures.append({"engine": "strs", "what": "the harness process died (abort / crash inside the real crate)",
-                                    "message": "harness process died", "last_lines": p.stdout.splitlines()[-6:], "stderr": p.stderr[-800:],
-                                    "history": p.stdout.splitlines()[-12:], "replay": cmdline})
-        return True
+        if out_lines and not p.stdout.endswith("\n"):
+            out_lines = out_lines[:-1]
     known = load_known()
     queries, expected, meta = [], [], []          # driver input, implementation output, (trace no, line index within trace)
     trace_no, trace_seed, trace_hdr = -1, None, ""
     trace_lines = collections.defaultdict(list)   # trace -> protocol lines (new / op / oracle) in order
     oracle_lines = []
     summary = {}
-    for l in p.stdout.splitlines():
+    for l in out_lines:
         if l.startswith("# trace "):
             trace_no += 1; trace_seed = l.split()[-1]; trace_hdr = l[2:]; continue
         if l.startswith("# summary"):
@@ -113,6 +114,11 @@ def run_strs(ctx, sequences, ops, sweeps, decodes, seed_offset=0, label="general
                 ctx.oracle_failures.append(rec)
         elif len([f for f in ctx.oracle_failures if not f.get("known")]) < 20:
             ctx.oracle_failures.append(rec)
+    if died:
+        ctx.oracle_failures.append({"engine": "strs", "what": "the harness process died (abort / crash inside the real crate)",
+                                    "message": "harness process died (see `history`: the last protocol lines before the crash)",
+                                    "last_lines": out_lines[-6:], "stderr": p.stderr[-800:],
+                                    "history": out_lines[-12:], "replay": cmdline})
     ctx.evaluations += n_ops
     for q in queries:
         if q.startswith("op "):
